@@ -223,7 +223,7 @@ func (x *Exec) callHavoc(fr *frame, c *ssa.CallCommon, hs *havocSet) {
 	if ct == nil && x.E.scalarOnlyExternal(callee) {
 		return
 	}
-	if len(callee.Blocks) > 0 && x.havocDepth < 3 && ((ct != nil && ct.Inline) || (ct == nil && callee.Parent() == nil && x.E.autoPure(callee, 0))) {
+	if len(callee.Blocks) > 0 && x.havocDepth < 3 && ((ct != nil && ct.Inline) || (ct == nil && callee.Parent() == nil && (x.E.autoPure(callee, 0) || x.E.autoInline(callee)))) {
 		// callees that are executed in place: what their bodies write
 		x.havocDepth++
 		x.scanHavoc(fr, callee.Blocks, hs, nil, 1)
